@@ -39,7 +39,8 @@ META = {
     'note': 'Not decided: span exactness under ordered alternation and the "::" boundary checks of BaseIpExtractor.extract '
             '(e.g. a ninth hextet is cut off, not rejected); the arithmetic of drop_leading_zeros; IPv4-mapped IPv6 text forms '
             '(not accepted today, outside "exploded or compressed form"); the e-mail / URL / phone / hashtag / mention grammars '
-            '(no independent finite specification), TLD list, phone scoring. L+ treats look-arounds and \\b as always true, so '
+            '(no independent finite specification; of the URL grammar only C13.url.context: a match path exists for 9 URL '
+            'forms in 11 carriers), TLD list, phone scoring; whether a CJK routing prefix shared by all getters is the right one. L+ treats look-arounds and \\b as always true, so '
             'the soundness inclusion for IPv6 shapes is over the over-approximated language (sufficient, not necessary).',
     'technique': 'finite regex-language enumeration and sub-pattern abstraction over the pattern syntax tree; symbolic '
                  'field dataflow through the parse methods',
@@ -2207,3 +2208,381 @@ _run_before_ip_context = run
 def run(chk):       # noqa: F811
     _run_before_ip_context(chk)
     rule_ip_context(chk)
+
+
+# ---------------------------------------------------------------------------------------------------------------
+# C13.url.context (round 7): the URL patterns as wired, tabulated with their assertions taken literally.  For every registered URL
+# configuration the patterns that reach the extractor (configuration slots + resource constants of the ReVal closure) are parsed
+# (sa/rx.py) and run by a small backtracking matcher that, unlike rx.matches, EVALUATES look-behinds, look-aheads, ^, $ and \b
+# against the carrier text.  Required (necessary for the extractor to return the URL, whatever the alternation order is): for a
+# well-formed URL with a listed TLD (or an IPv4 / localhost URL) at offset s..e of a carrier text, SOME wired pattern has SOME
+# match path covering exactly s..e whose Tld group is a member of the TLD list handed to the matcher (or whose IPurl group is
+# non-empty).  Leftmost/greedy choice among the paths, the merging of overlapping matches and the ambiguous-time filter are not
+# part of the rule (an existing path is necessary, not sufficient).
+
+URL_REFERENCE = [  # (url template over a listed TLD {t}, may be followed directly by a closing parenthesis)
+    ('example.{t}', True), ('docs.python.{t}/3/library/re.html', True), ('contoso.co.{t}/index.html?x=1', True),
+    ('http://192.168.0.1/admin', True), ('http://localhost:8080/status', True),
+    # scheme / www URLs also match the second general pattern, whose path class contains ')': the closing parenthesis is then
+    # swallowed today (span exactness under alternation, not decided) - they are tabulated with the other carriers only
+    ('http://example.{t}/a/b', False), ('https://www.bing.{t}/search?q=x', False), ('www.example.{t}', False), ('ftp://files.example.{t}/pub', False)]
+URL_CONTEXTS = [('', ''), ('see ', ' for details'), ('see\n', '\nfor details'), ('see\t', ''), ('"', '"'), ("'", "'"), ('[', ']'), ('(', ')'),
+                ('( ', ' )'), ('link:', ''), ('see ', ', or')]
+
+
+class _StrictMatch:
+    """exists-path matcher over rx trees with literal assertion semantics; captures of named groups follow the current path"""
+
+    def __init__(self, w, ci, relaxed=()):
+        self.w, self.ci, self.relaxed, self.caps = w, ci, relaxed, {}
+
+    def ch(self, n, c):
+        k = n.kind
+        if k == 'any':
+            if c == '\n':
+                raise AnalysisError('C13.url.context: "." meets a line break (DOTALL not modelled)')
+            return True
+        if self.ci or k == 'cc':
+            return rx._ch_match(n, c)
+        if k == 'lit':
+            return n.c == c
+        if k == 'range':
+            return n.c[0] <= c <= n.c[1]
+        if k == 'class':
+            r = any(self.ch(it, c) for it in n.items)
+            return (not r) if n.neg else r
+        raise AnalysisError('C13.url.context: not a character matcher: %s' % k)
+
+    def _word(self, i):
+        return 0 <= i < len(self.w) and (self.w[i].isalnum() or self.w[i] == '_')
+
+    def anchor(self, n, i):
+        c, w = n.c, self.w
+        if c in ('^', '\\A'):
+            return i == 0
+        if c == '$':
+            return i == len(w) or (i == len(w) - 1 and w[i] == '\n')
+        if c == '\\Z':
+            return i == len(w)
+        if c == '\\b':
+            return self._word(i - 1) != self._word(i)
+        if c == '\\B':
+            return self._word(i - 1) == self._word(i)
+        raise AnalysisError('C13.url.context: anchor %s not modelled' % c)
+
+    def m(self, n, i, k):
+        kind = n.kind
+        if kind in ('lit', 'any', 'cc', 'class', 'range'):
+            return i < len(self.w) and self.ch(n, self.w[i]) and k(i + 1)
+        if kind == 'seq':
+            def run(ix, j):
+                if ix == len(n.items):
+                    return k(j)
+                return self.m(n.items[ix], j, lambda j2: run(ix + 1, j2))
+            return run(0, i)
+        if kind == 'alt':
+            return any(self.m(a, i, k) for a in n.items)
+        if kind == 'group':
+            if not n.name:
+                return self.m(n.node, i, k)
+
+            def cap(j):
+                old = self.caps.get(n.name)
+                self.caps[n.name] = (i, j)
+                if k(j):
+                    return True
+                if old is None:
+                    self.caps.pop(n.name, None)
+                else:
+                    self.caps[n.name] = old
+                return False
+            return self.m(n.node, i, cap)
+        if kind == 'anchor':
+            return (id(n) in self.relaxed or self.anchor(n, i)) and k(i)
+        if kind == 'look':
+            if id(n) in self.relaxed:
+                return k(i)
+            if n.dir in ('ahead', 'nahead'):
+                ok = bool(self.m(n.node, i, lambda j: True))
+            else:
+                ok = any(self.m(n.node, j, lambda e: e == i) for j in range(i, -1, -1))
+            return (ok == (n.dir in ('ahead', 'behind'))) and k(i)
+        if kind == 'rep':
+            def rep(cnt, j):
+                if cnt >= n.lo and k(j):
+                    return True
+                if n.hi is not None and cnt >= n.hi:
+                    return False
+                return self.m(n.node, j, lambda j2: (j2 > j and rep(cnt + 1, j2)) or (j2 == j and cnt < n.lo and rep(cnt + 1, j2)))
+            return rep(0, i)
+        raise AnalysisError('C13.url.context: pattern element %s (%s) not modelled' % (kind, short(rx.unparse(n), 30)))
+
+
+def _url_tree(pattern, what):
+    import re as _re
+    if _re.search(r'\(\?(>|[a-zA-Z-]+[:)])', pattern) or _re.search(r'(?<!\\)(?:[*+?]|\{\d*,?\d*\})\+', pattern):
+        raise AnalysisError('C13.url.context: %s uses atomic groups, possessive repeats or inline flags (not modelled)' % what)
+    try:
+        return rx.parse(pattern)
+    except rx.RxError as e:
+        raise AnalysisError('C13.url.context: %s not analysable: %s' % (what, e))
+
+
+def url_path_exists(trees, text, s, e, tlds, relaxed=()):
+    """some tree of `trees` [(tree, ignorecase)] has a match path over text[s:e] with a listed Tld capture or a non-empty IPurl capture"""
+    import sys
+    if sys.getrecursionlimit() < 20000:
+        sys.setrecursionlimit(20000)
+    for tree, ci in trees:
+        sm = _StrictMatch(text, ci, relaxed)
+
+        def fin(j, sm=sm):
+            if j != e:
+                return False
+            ip, t = sm.caps.get('IPurl'), sm.caps.get('Tld')
+            return bool(ip and ip[1] > ip[0]) or (t is not None and text[t[0]:t[1]] in tlds)
+        if sm.m(tree, s, fin):
+            return True
+    return False
+
+
+def _flag_names(ev, flags):
+    """names of the compile flags behind a wiring description ('uncompiled' | 'default' | text of the explicit flags)"""
+    if flags == 'uncompiled':
+        return set()
+    if flags == 'default':
+        c = ev.idx.cls('recognizers_text.utilities.RegExpUtility')
+        fn = c.methods.get('get_safe_reg_exp')
+        if fn is None:
+            raise AnalysisError('anchor vanished: RegExpUtility.get_safe_reg_exp')
+        ps = fn.args.args
+        d = dict(zip([p.arg for p in ps[len(ps) - len(fn.args.defaults):]], fn.args.defaults)).get('flags')
+        if d is None or not compiled_ignorecase(ev, 'default') and 'I' in ast.unparse(d):
+            raise AnalysisError('RegExpUtility.get_safe_reg_exp: default flags not understood')
+        flags = ast.unparse(d)
+    names = set()
+    for p in flags.replace('(', ' ').replace(')', ' ').split('|'):
+        nm = p.strip().split('.')[-1]
+        nm = {'IGNORECASE': 'I', 'DOTALL': 'S', 'UNICODE': 'U'}.get(nm, nm)
+        if nm not in ('I', 'S', 'U'):
+            raise AnalysisError('C13.url.context: compile flag %r not modelled' % p.strip())
+        names.add(nm)
+    return names
+
+
+def rule_url_context(chk):
+    ev = Ev()
+    idx = ev.idx
+    chk.rule('C13.url.context', 'a well-formed URL with a listed TLD (or an IPv4/localhost URL) at the start of the text, after white '
+                                'space, a quote, an opening bracket or parenthesis or a colon is covered exactly by some match path of '
+                                'some wired URL pattern, assertions evaluated against the carrier text', floor=2, control=True)
+    seen = set()
+    for r in registrations(ev, SEQ_RECOGNIZER):
+        e = r.args.get('extractor')
+        if r.model_cls.name != 'URLModel':
+            continue
+        if not (isinstance(e, ast.Call) and e.args and isinstance(e.args[0], ast.Call)):
+            raise AnalysisError('%s:%d URL extractor is not built from a configuration object' % (r.mod.rel, r.line))
+        ecls, ccls = idx.resolve_class(r.mod, e.func), idx.resolve_class(r.mod, e.args[0].func)
+        if ecls is None or ccls is None:
+            raise AnalysisError('%s:%d URL extractor / configuration class not resolvable' % (r.mod.rel, r.line))
+        if ccls.qual in seen:
+            continue
+        seen.add(ccls.qual)
+        chk.consulted(ecls.mod.path)
+        chk.consulted(ccls.mod.path)
+        # the TLD list handed to the matcher: <matcher>.init(<list of words>) in the extractor's constructor chain
+        tlds = None
+        for k in idx.mro(ecls):
+            fn = k.methods.get('__init__')
+            for n in ast.walk(fn) if fn is not None else ():
+                if isinstance(n, ast.Call) and isinstance(n.func, ast.Attribute) and n.func.attr == 'init' and len(n.args) == 1:
+                    try:
+                        v = ev.ev(k.mod, n.args[0])
+                    except Unresolved as ex:
+                        raise AnalysisError('%s:%d TLD list not evaluable (%s)' % (k.mod.rel, n.lineno, ex))
+                    if isinstance(v, (list, tuple)) and v and all(isinstance(x, str) for x in v):
+                        tlds = set(v)
+        if not tlds:
+            raise AnalysisError('%s: no <matcher>.init(<TLD list>) found in the constructor chain' % ecls.name)
+        plain = sorted(t for t in tlds if t.isascii() and t.isalpha() and t.islower() and 2 <= len(t) <= 6)
+        use = [t for t in ('com', 'org', 'uk') if t in tlds] or plain[:2]
+        if not use:
+            raise AnalysisError('%s: the TLD list has no plain ASCII entry to build reference URLs from' % ecls.name)
+        # wired patterns
+        pats = []       # (label, pattern text, ignorecase, path, line, resource class or None, attribute or None)
+        for rv in extractor_closure(ev, ecls):
+            if rv.kind == 'config':
+                sl = slot(ev, ccls, rv.name)
+                if not isinstance(sl.value, str):
+                    raise AnalysisError('%s:%d %s.%s does not evaluate to a pattern (%s)' % (sl.cls.mod.rel, sl.line, ccls.name, rv.name, sl.origin))
+                inner, fl, wrapped = strip_safe_regexp(sl.expr)
+                names = _flag_names(ev, 'uncompiled' if not wrapped else ('default' if fl is None else ast.unparse(fl)))
+                rc = idx.resolve_class(sl.cls.mod, inner.value) if isinstance(inner, ast.Attribute) else None
+                pats.append(('%s.%s = %s' % (ccls.name, rv.name, sl.origin), sl.value, 'I' in names, sl.cls.mod.path, sl.line, rc,
+                             inner.attr if isinstance(inner, ast.Attribute) else None))
+            elif rv.kind == 'resource':
+                names = _flag_names(ev, rv.flags)
+                pats.append((rv.expr, rv.pattern, 'I' in names, rv.cls.mod.path, rv.line, None, None))
+            else:
+                raise AnalysisError('%s:%d pattern %s of the URL extractor is not evaluable' % (rv.cls.mod.rel, rv.line, rv.expr))
+        if len(pats) < 2:
+            raise AnalysisError('%s: fewer than two URL patterns wired' % ecls.name)
+        trees = [(_url_tree(p[1], p[0]), p[2]) for p in pats]
+        bad, n = [], 0
+        culprits = {}
+        for tpl, paren_ok in URL_REFERENCE:
+            for t in (use if '{t}' in tpl else use[:1]):
+                u = tpl.replace('{t}', t)
+                for pre, suf in URL_CONTEXTS:
+                    if suf.startswith(')') and not paren_ok:
+                        continue
+                    text = pre + u + suf
+                    n += 1
+                    if url_path_exists(trees, text, len(pre), len(pre) + len(u), tlds):
+                        continue
+                    bad.append(text)
+                    # which single assertion, taken as true, would let the URL through?
+                    for (tree, _ci), p in zip(trees, pats):
+                        for nd in rx.walk(tree):
+                            if nd.kind in ('look', 'anchor') and url_path_exists([(tree, _ci)], text, len(pre), len(pre) + len(u), tlds, {id(nd)}):
+                                culprits.setdefault((rx.unparse(nd), p[0]), (p, text))
+        path, line, why = pats[0][3], pats[0][4], ''
+        if culprits:
+            (asrt, label), (p, text) = sorted(culprits.items())[0]
+            path, line = p[3], p[4]
+            why = '; the assertion %s of %s rejects e.g. %r' % (asrt, label, text)
+            rc = p[5]
+            if rc is not None:
+                # name the resource constant that is this assertion (or, failing that, the pattern constant)
+                vals = ev.R.values(rc)
+                hit = None
+                for nm, v in vals.items():
+                    if isinstance(v, str):
+                        try:
+                            if rx.unparse(rx.parse(v)) == asrt:
+                                hit = nm
+                        except rx.RxError:
+                            pass
+                for nm in (hit, p[6]):
+                    if nm:
+                        k2, node = idx.class_attr(rc, nm)
+                        if node is not None:
+                            path, line = k2.mod.path, node.lineno
+                            why += ' (%s.%s)' % (k2.name, nm)
+                            break
+        chk.consulted(path)
+        chk.judge(not bad, 'C13.url.context', path, '%s under %s' % (ecls.name, ccls.name),
+                  '%d texts (%d URL forms x %d carriers), %d without a match path%s'
+                  % (n, len(URL_REFERENCE), len(URL_CONTEXTS), len(bad), (': ' + '; '.join(repr(b) for b in bad[:6])) if bad else ''),
+                  'no wired URL pattern of %s (with %s) can cover the URL in %s (%d of %d texts)%s'
+                  % (ecls.name, ccls.name, '; '.join(repr(b) for b in bad[:5]), len(bad), n, why), line)
+    if not seen:
+        raise AnalysisError('no URLModel registration found')
+    good = [(_url_tree('(?<=\\s|[\'"(\\[:]|^)[a-z0-9][-a-z0-9.]{0,30}\\.(?<Tld>[a-z]{2,6})(?![a-z0-9])', 'control'), True)]
+    lost = [(_url_tree('(?<=\\s|[\'"\\[:]|^)[a-z0-9][-a-z0-9.]{0,30}\\.(?<Tld>[a-z]{2,6})(?![a-z0-9])', 'control'), True)]
+    chk.control('C13.url.context', url_path_exists(good, '(example.com)', 1, 12, {'com'}) and not url_path_exists(lost, '(example.com)', 1, 12, {'com'})
+                and url_path_exists(lost, 'see example.com', 4, 15, {'com'}) and not url_path_exists(good, 'see example.con', 4, 15, {'com'}))
+
+
+_run_before_url_context = run
+
+
+def run(chk):       # noqa: F811
+    _run_before_url_context(chk)
+    rule_url_context(chk)
+
+
+# ---------------------------------------------------------------------------------------------------------------
+# C13.cjk-routing (round 7): the model getters of SequenceRecognizer, tabulated over the culture codes (contradiction between
+# siblings).  Every get_*_model method is interpreted (the evaluator C17 uses: self.get_model recorded, helpers inlined) for every
+# supported culture code in three letter cases and one regional variant per language; the culture it hands to get_model is mapped
+# by the reference decision table of map_to_nearest_language (C17.map decides that the code agrees with it) and looked up in the
+# registration table.  Required: when a getter's request for culture c ends at NO registration of its model type (only the English
+# fallback is left), no sibling getter sends the same c to a culture t for which this getter's model type IS registered - the
+# siblings then disagree on whether c needs t's (CJK-aware) configuration, and the one that falls back recognises addresses / URLs /
+# numbers only between the word boundaries of English text.  Not decided: whether a prefix all siblings share is the right one.
+
+def rule_cjk_routing(chk, _getters=None):
+    from .c17 import Routing, culture_inputs, getter_route, getters_of, reference_map
+    ev = Ev()
+    idx = ev.idx
+    chk.rule('C13.cjk-routing', 'a model getter does not leave a culture to the English fallback that a sibling getter sends to a culture '
+                                'its own model type is registered for', floor=5, control=True)
+    rt = Routing(idx)
+    rc = idx.cls(SEQ_RECOGNIZER)
+    regs = set()
+    for r in registrations(ev, SEQ_RECOGNIZER):
+        if not isinstance(r.culture, str):
+            raise AnalysisError('%s:%d culture of a registration is not a string' % (r.mod.rel, r.line))
+        regs.add((r.model, r.culture.lower()))
+    supported = rt.supported_codes()
+    probes = [c for c in culture_inputs(rt) if isinstance(c, str) and c]
+    if len(probes) < 20:
+        raise AnalysisError('C13.cjk-routing: only %d culture probes' % len(probes))
+
+    def table(getters):
+        rows = {}
+        for k, fn in getters:
+            row = {}
+            for c in probes:
+                name, cult, _fb = getter_route(rt, k, fn, c)
+                if not isinstance(name, str) or not isinstance(cult, str):
+                    raise AnalysisError('%s:%d %s.%s(%r) asks for %r / %r: not a (name, culture) request'
+                                        % (k.mod.rel, fn.lineno, k.name, fn.name, c, name, cult))
+                eff = reference_map(cult, supported)
+                row[c] = (name, eff, (name, eff) in regs)
+            rows[fn.name] = (k, fn, row)
+        return rows
+
+    def disagreements(rows):
+        out = {}
+        for g, (k, fn, row) in rows.items():
+            for c in probes:
+                name, eff, hit = row[c]
+                if hit:
+                    continue
+                for h, (_k, _fn, hrow) in rows.items():
+                    _hn, t, hhit = hrow[c]
+                    if h != g and hhit and t != eff and (name, t) in regs:
+                        out.setdefault(g, {}).setdefault((c.lower(), t), set()).add(h)
+        return out
+
+    getters = getters_of(rt, rc)
+    if len(getters) < 3:
+        raise AnalysisError('%s: only %d model getters found' % (rc.name, len(getters)))
+    chk.consulted(rc.mod.path)
+    rows = table(getters)
+    dis = disagreements(rows)
+    for g, (k, fn, row) in sorted(rows.items()):
+        name = sorted({v[0] for v in row.values()})
+        routed = sorted({'%s->%s' % (c.lower(), v[1]) for c, v in row.items() if v[2] and v[1] != reference_map(c, supported)})
+        d = dis.get(g, {})
+        what = '; '.join('%s falls back, %s send it to %s' % (c, '/'.join(sorted(hs)), t) for (c, t), hs in sorted(d.items()))
+        chk.judge(not d, 'C13.cjk-routing', k.mod.path, '%s.%s' % (rc.name, fn.name),
+                  '%s: redirected %s%s' % ('/'.join(name), ', '.join(routed) or 'nothing', ('; ' + what) if d else ''),
+                  '%s.%s leaves a culture without a %s registration to the English fallback although sibling getters route it to a '
+                  'culture %s is registered for: %s' % (rc.name, fn.name, '/'.join(name), '/'.join(name), what), fn.lineno)
+    # control: a sibling pair that disagrees on ja-*
+    cm = ast.parse("class SequenceRecognizer:\n"
+                   "    def get_a_model(self, culture=None, fallback_to_default_culture=True):\n"
+                   "        if culture and culture.lower().startswith(('zh-', 'ja-')):\n"
+                   "            return self.get_model('URLModel', Culture.Chinese, fallback_to_default_culture)\n"
+                   "        return self.get_model('URLModel', culture, fallback_to_default_culture)\n"
+                   "    def get_b_model(self, culture=None, fallback_to_default_culture=True):\n"
+                   "        if culture and culture.lower().startswith(('zh-', 'jp-')):\n"
+                   "            return self.get_model('IpAddressModel', Culture.Chinese, fallback_to_default_culture)\n"
+                   "        return self.get_model('IpAddressModel', culture, fallback_to_default_culture)\n").body[0]
+    fired = False
+    if {('URLModel', 'zh-cn'), ('IpAddressModel', 'zh-cn')} <= regs:
+        ctl = disagreements(table([(rc, f) for f in cm.body]))
+        fired = set(ctl) == {'get_b_model'} and all(c.startswith('ja') for c, _t in ctl['get_b_model'])
+    chk.control('C13.cjk-routing', fired)
+
+
+_run_before_cjk_routing = run
+
+
+def run(chk):       # noqa: F811
+    _run_before_cjk_routing(chk)
+    rule_cjk_routing(chk)
